@@ -301,6 +301,13 @@ Stepped == phase \in {"running", "done"} /\ mod.STEP >= 1
 (* every name the generated Iterator reads is bound by the unpacking of in_vec or comes from math *)
 C20_Closed == HasFile => (ClosedFile(file) /\ DeclClosed(file))
 
+(* the Iterator evaluates every equation of the block as written: line i reads exactly the names  *)
+(* equation i reads - in particular an equation without any name (a parameter written as a literal *)
+(* or as arithmetic on literals) is evaluated like every other one, not carried (NEW_v = v)        *)
+IteratorEvaluates(p, f) ==
+    \A i \in DOMAIN p.endo : i \in DOMAIN f.iterReads /\ Range(f.iterReads[i]) = Range(p.endo[i].reads)
+C20_IteratorEvaluatesEquations == HasFile => IteratorEvaluates(parser, file)
+
 (* the generated module resolves every math / builtin name the in-process solver resolves *)
 C20_ResolvesSolverNames == HasFile => SolverNames \subseteq file.globals
 
